@@ -169,6 +169,12 @@ def run(ck: Check):
         nl = rng.choice([0, 0, 1, 2])
         cases.append({"seed": rng.randrange(1 << 30), "brokers": rng.choice([1, 2, 3]), "partitions": n,
                       "keys": ks, "leaderless": rng.sample(range(n), min(nl, n - 1))})
+        if i % 2 == 1:
+            # partitions whose leader is alive but whose Metadata entry carries a partition-level error (a follower or a
+            # listener is down): they are partitions of the topic like the others
+            c0 = cases[-1]
+            live = [q for q in range(n) if q not in c0["leaderless"]]
+            c0["partition_errors"] = {str(q): rng.choice([9, 9, 72, 5, 3]) for q in rng.sample(live, min(len(live), rng.choice([1, 2])))}
     # ... and with a configured key serializer: the serialized key (as found in the log) is what gets hashed,
     # also when the application's key object is None but its serialized form is not
     objs = [None, None, "", "a", "user-17", 0, 7, 12345, -1, True, ["x", 1], {"k": "v"}, "ключ", "x" * 40]
